@@ -31,6 +31,10 @@ type bdCase struct {
 var bdAlphabet = []bdOp{
 	{"S", "user="}, {"U", "alice"}, {"U", "carol"}, {"U", "x\n"}, {"U", ""}, {"P", "bobby"}, {"S", "‹"},
 	{"RST", ""}, {"TKS", ""}, {"TKB", ""}, {"RS", ""}, {"RB", ""}, {"STR", ""}, {"LEN", ""},
+	// "echo": a safe string exactly as long as the builder's content was after the first / the last write of the epoch
+	// before the last Reset / Take -- anything remembered about the old content by its LENGTH (an offset cached for a
+	// fast path) meets the same length again in the new epoch
+	{"EF", ""}, {"EL", ""},
 }
 
 func bdApplyWrite(sb *redact.StringBuilder, o bdOp) {
@@ -52,6 +56,18 @@ func judgeBuilder(rep *lib.Report, k bdCase) {
 		copy string
 	}
 	var kept []taken
+	echoF, echoL := 0, 0 // finalized lengths after the first / last write of the previous epoch (computed on builders of their own)
+	epochEnds := func() {
+		echoF, echoL = 0, 0
+		var fb redact.StringBuilder
+		for j, w := range since {
+			bdApplyWrite(&fb, w)
+			if j == 0 {
+				echoF = len(fb.RedactableString())
+			}
+		}
+		echoL = len(fb.RedactableString())
+	}
 	desc := func(i int) string {
 		var parts []string
 		for _, o := range k.Ops[:i+1] {
@@ -61,17 +77,28 @@ func judgeBuilder(rep *lib.Report, k bdCase) {
 	}
 	for i, o := range k.Ops {
 		switch o.O {
+		case "EF", "EL":
+			n := echoF
+			if o.O == "EL" {
+				n = echoL
+			}
+			o = bdOp{"S", strings.Repeat("e", n)}
+			bdApplyWrite(&sb, o)
+			since = append(since, o)
 		case "S", "U", "P":
 			bdApplyWrite(&sb, o)
 			since = append(since, o)
 		case "RST":
+			epochEnds()
 			sb.Reset()
 			since = nil
 		case "TKS":
+			epochEnds()
 			r := sb.TakeRedactableString()
 			kept = append(kept, taken{r, string(append([]byte(nil), r...))})
 			since = nil
 		case "TKB":
+			epochEnds()
 			r := sb.TakeRedactableBytes()
 			kept = append(kept, taken{redact.RedactableString(string(r)), string(r)})
 			since = nil
